@@ -127,15 +127,7 @@ Proof.
     - unfold ntoks in Hfinal. rewrite Ed in Hfinal. cbn in Hfinal. rewrite Nat.add_0_r in Hfinal.
       rewrite Hfinal. left. reflexivity.
     - apply (At_cons toks) in Hat as [H0 _]. rewrite (At_K toks _ _ H0). cbn [fst].
-      destruct Hd as [hdr arrays H1 H2|hdr arrays d' H1 H2 Hd' Hs]; cbn [sdecl_toks] in Ed.
-      + rewrite app_nil_l in Ed. destruct hdr as [|h hdr].
-        * destruct arrays as [|a arrays]; [discriminate|]. destruct a; inversion Ed; right; left; eexists; reflexivity.
-        * cbn in H1. apply andb_true_iff in H1 as [H1 _]. inversion Ed.
-          destruct h as [|[]|]; try discriminate; cbn; unfold follower; eauto.
-      + destruct hdr as [|h hdr].
-        * inversion Ed. right; left; eexists; reflexivity.
-        * cbn in H1. apply andb_true_iff in H1 as [H1 _]. inversion Ed.
-          destruct h as [|[]|]; try discriminate; cbn; unfold follower; eauto. }
+      exact (sdecl_first_follower _ _ _ _ _ Hd Ed). }
   pose proof (parse_complete_named osz g input toks L Wg q1 b r f1 0 [] Hkat Hatb Hfol Hid Hok ltac:(lia)) as Hspec.
   destruct r as [[op m]|].
   2:{ destruct (parse_complete osz (ctx_of g) (S f1) (T input 0 [])) as [[? ?]| |]; try contradiction.
